@@ -288,11 +288,19 @@ type hsCase struct {
 	Provide  int
 	SelPol   string
 	KeyMode  string
+	Loose    bool // B is the hostile receiver of the overlay shim: crypto_select is sent unvalidated
 }
 
 var postSizes = []int{1, 1000, 2500}
 
 var hsTimeout = 20 * time.Second
+
+func b2i(b bool) int {
+	if b {
+		return 1
+	}
+	return 0
+}
 
 func randBytes(rng *rand.Rand, n int) []byte {
 	b := make([]byte, n)
@@ -355,7 +363,12 @@ func runHS(cs hsCase, rng *rand.Rand) map[string]any {
 	}()
 	go func() {
 		defer wg.Done()
-		err := sb.HandshakeIncoming(skeyFunc(cs.KeyMode, key), selectFunc(cs.SelPol, &selGot))
+		var err error
+		if cs.Loose {
+			err = sb.VerifHandshakeIncomingLoose(skeyFunc(cs.KeyMode, key), selectFunc(cs.SelPol, &selGot))
+		} else {
+			err = sb.HandshakeIncoming(skeyFunc(cs.KeyMode, key), selectFunc(cs.SelPol, &selGot))
+		}
 		rb.res, rb.cipher = errClass(err), selGot
 		if err != nil {
 			eb.Close()
@@ -423,7 +436,7 @@ func runHS(cs hsCase, rng *rand.Rand) map[string]any {
 	return map[string]any{
 		"op": "HS", "padA": cs.Pads[0], "padB": cs.Pads[1], "padC": cs.Pads[2], "padD": cs.Pads[3],
 		"chA": cs.ChA.class(), "chB": cs.ChB.class(), "frA": frA, "frB": frB, "ia": cs.IA,
-		"provide": cs.Provide, "selpol": cs.SelPol, "keymode": cs.KeyMode, "sel": selGot,
+		"provide": cs.Provide, "selpol": cs.SelPol, "keymode": cs.KeyMode, "sel": selGot, "loose": b2i(cs.Loose),
 		"ra": ra.res, "ca": ra.cipher, "rb": rb.res, "cb": rb.cipher,
 		"iaok": rb.iaOK, "sab": rb.gotOK, "sba": ra.gotOK, "wab": wab, "wba": wba, "hang": hang, "steer": steer,
 	}
@@ -479,6 +492,10 @@ func genCase(rng *rand.Rand, randomPads bool) hsCase {
 		cs.IA = 65536 + rng.Intn(3)*1000
 	case 4:
 		cs.Provide = 1 + rng.Intn(2)
+	case 5: // hostile receiver
+		cs.Loose = true
+		cs.Provide = 1 + rng.Intn(3)
+		cs.SelPol = []string{"preferRC4", "preferPlain", "onlyPlain", "onlyRC4", "both", "none"}[rng.Intn(6)]
 	}
 	return cs
 }
@@ -534,6 +551,7 @@ type scenario struct {
 	KeyMode string `json:"keymode"`
 	SelPol  string `json:"selpol"`
 	Trunc   bool   `json:"trunc"`
+	Loose   bool   `json:"loose"`
 }
 
 var (
@@ -713,7 +731,12 @@ func acceptOne(sc scenario, conn net.Conn, markC, markD []byte) (r polSide) {
 			}
 			s := mse.NewStream(rwc{io.MultiReader(bytes.NewReader(head), conn), tw})
 			got := -1
-			err := s.HandshakeIncoming(skeyFunc(sc.KeyMode, infoHash[:]), selectFunc(sc.SelPol, &got))
+			var err error
+			if sc.Loose {
+				err = s.VerifHandshakeIncomingLoose(skeyFunc(sc.KeyMode, infoHash[:]), selectFunc(sc.SelPol, &got))
+			} else {
+				err = s.HandshakeIncoming(skeyFunc(sc.KeyMode, infoHash[:]), selectFunc(sc.SelPol, &got))
+			}
 			r.cipher = got
 			if err != nil {
 				r.res = errClass(err)
@@ -878,15 +901,9 @@ func runPol(sc scenario, rng *rand.Rand) map[string]any {
 		}
 		tc.mu.Unlock()
 	}
-	b2i := func(b bool) int {
-		if b {
-			return 1
-		}
-		return 0
-	}
 	return map[string]any{
 		"op": "POL", "dk": sc.Dk, "ck": sc.Ck, "enable": b2i(sc.Enable), "force": b2i(sc.Force), "forceIn": b2i(sc.ForceIn),
-		"provide": sc.Provide, "ia": sc.IA, "keymode": sc.KeyMode, "selpol": sc.SelPol, "trunc": b2i(sc.Trunc),
+		"provide": sc.Provide, "ia": sc.IA, "keymode": sc.KeyMode, "selpol": sc.SelPol, "trunc": b2i(sc.Trunc), "loose": b2i(sc.Loose),
 		"padA": pads[0], "padB": pads[1], "padC": pads[2], "padD": pads[3], "npads": ps.calls,
 		"ra": dr.res, "ca": dr.cipher, "rb": last.res, "cb": last.cipher, "natt": natt,
 		"rb1": first.res, "cb1": first.cipher, "w1": w1,
